@@ -249,3 +249,53 @@ for pid, tech, lvl in [
 ]:
     MANIFEST_TEXT[pid] = dict(engine="decoder-model", technique=tech, level=lvl, note=NOTE_PBT,
                               category="fault_enumeration" if pid == "C18" else "exploration")
+
+SUFFIX_ASSUME = [
+    "the Go toolchain, pgregory.net/rapid v1.3.0 and the harness's suffix oracles (harness/suffixref.go: Burkhardt-Kaerkkaeinen checker, naive sort, naive/Kasai LCP, brute-force prefix groups) are correct",
+]
+CHECKS["C09"] = {
+    "quick": {"tests": [{"test": "TestC09", "checks": 6000, "subchecks": 1},
+                        {"test": "TestC09Enum", "checks": 1, "subchecks": 7375}]},
+    "thorough": {"shards": 16, "timeout": 3000, "tests": [
+        {"test": "TestC09", "checks": 30000, "subchecks": 1},
+        {"test": "TestC09Enum", "checks": 1, "subchecks": 62285, "env": {"VERIF_C09_AB": "14", "VERIF_C09_ABC": "9"}, "once": True},
+        {"test": "TestC09Large", "checks": 1, "subchecks": 24, "once": True},
+    ]},
+    "rule": ("texts of length 0..4000 from structured families (uniform over alphabets 1,2,3,4,256; Fibonacci, Thue-Morse, "
+             "period-doubling, de Bruijn, (a^k b)^m with jitter, runs of two letters, word concatenations, squares/cubes, "
+             "periodic with point mutations, LZ-copy texts; random relabelling of the symbols) plus the exhaustive "
+             "enumeration of all strings over {a,b} up to length 11 and {a,b,c} up to length 7 (quick; 14 resp. 9 and "
+             "50 kB-1 MB family members in thorough). sa is pre-filled with garbage; Sort is checked by the complete "
+             "linear-time suffix-array characterisation (permutation, first bytes ordered, tail ranks ordered) and for "
+             "n<=64 against sorting by comparison; LCP in all four sa/sainv supplied-or-nil combinations against naive / "
+             "Kasai LCP; InvertSA; the text must be unchanged. Non-trivial: two B* suffixes share their B*-substring (the "
+             "rank sort has real work). Distinct = distinct text."),
+    "assumptions": SUFFIX_ASSUME,
+}
+CHECKS["C10"] = {
+    "quick": {"tests": [{"test": "TestC10", "checks": 20000, "subchecks": 1},
+                        {"test": "TestC10Enum", "checks": 1, "subchecks": 66364}]},
+    "thorough": {"shards": 16, "timeout": 3000, "tests": [
+        {"test": "TestC10", "checks": 200000, "subchecks": 1},
+        {"test": "TestC10Enum", "checks": 1, "subchecks": 1, "nocount": True, "env": {"VERIF_C10_AB": "12", "VERIF_C10_ABC": "7"}, "once": True},
+    ]},
+    "rule": ("texts of length 0..48 (10%: up to 160) from the C09 families with drawn (minLen, maxLen), sa/lcp computed by "
+             "the harness's naive reference or by the library, plus the exhaustive enumeration of all texts over {a,b} up to "
+             "length 9 and {a,b,c} up to length 5 with every 0 <= minLen <= maxLen <= n+1 (quick; 12 resp. 7 in thorough). "
+             "Oracle: brute force over all pairs of suffixes: every callback has minLen <= m <= maxLen, distinct members "
+             "pairwise sharing >= m bytes; every pair with common prefix c >= minLen is in exactly one callback with "
+             "m = min(c, maxLen); a group is reported before every group that contains it; no panic (empty text, minLen 0). "
+             "Non-trivial: the LCP table falls to a level that is still >= max(minLen,1) (an enclosing group must keep the "
+             "left boundary of the group just closed)."),
+    "assumptions": SUFFIX_ASSUME,
+}
+MANIFEST_TEXT["C09"] = dict(
+    engine="suffix-oracles",
+    technique="property-based testing over structured text families + small-scope exhaustive enumeration, against a complete linear-time suffix-array checker and naive LCP",
+    level="Exploration with an exhaustive small-scope part (all short strings over 2 and 3 letters); the checker is a complete characterisation, so any wrong output on an explored input is caught.",
+    note=NOTE_PBT + " Statements of trsort reachable only by budget exhaustion are reported by measured coverage in the thorough tier, not claimed.")
+MANIFEST_TEXT["C10"] = dict(
+    engine="suffix-oracles",
+    technique="property-based testing + small-scope exhaustive enumeration of (text, minLen, maxLen) against brute-force prefix groups over all suffix pairs",
+    level="Exploration with an exhaustive small-scope part; the oracle checks both directions (soundness of every callback, completeness and uniqueness for every pair).",
+    note=NOTE_PBT)
